@@ -6,6 +6,9 @@
   crashing their caller".
 -/
 import Msmart.Props.C09Transport
+import Msmart.Lemmas.CodecEqLan
+import Msmart.Lemmas.PacketErr
+import Msmart.Props.C04Code
 import Msmart.Lemmas.Stack
 
 namespace Msmart.Props.C09
@@ -26,5 +29,64 @@ theorem refresh_never_raises (p : Params) (rx : Reactions) (r : Run) (s : S) (hg
 theorem refresh_over_lan_is_refresh_on_a_script (p : Params) (rx : Reactions) (r : Run) (s : S) (hg : Good s) :
     ∃ script : Replies, (refreshLan p rx r s).1 = refresh { r with replies := script ++ r.replies } :=
   Lemmas.Stack.refreshLan_refines p rx r s hg
+
+/-! ### the receive path as translated from the source text -/
+section Code
+open Msmart.Model Msmart.Lemmas
+
+/-- what the reassembly loop queues has at least the 8 bytes `_process_packet` indexes into -/
+theorem reasmStep_packet_len {b p r : Bytes} (h : reasmStep b = some (p, r)) : 8 ≤ p.length := by
+  unfold reasmStep at h
+  split at h
+  · cases h
+  · unfold takePacket at h
+    split at h
+    · cases h
+    · split at h
+      · cases h
+      · simp only [Option.some.injEq, Prod.mk.injEq] at h
+        obtain ⟨rfl, _⟩ := h
+        rename_i h1 h2
+        simp only [List.length_take]
+        omega
+
+theorem parseLoop_packet_len (b : Bytes) : ∀ p ∈ (parseLoop b).1, 8 ≤ p.length := by
+  induction hn : b.length using Nat.strongRecOn generalizing b with
+  | _ n ih =>
+    rw [parseLoop.eq_def b]
+    split
+    · intro p hp; cases hp
+    · rename_i p r hstep
+      intro q hq
+      simp only [List.mem_cons] at hq
+      rcases hq with rfl | hq
+      · exact reasmStep_packet_len hstep
+      · exact ih r.length (by have := reasmStep_shrinks hstep; omega) r rfl q hq
+
+/-- **C09 about the translated code (V3 receive path).** WHATEVER byte sequence the peer sends, in whatever segments: the
+    translated loop body of `data_received`, iterated, never raises; every packet it queues has at least 8 bytes; and the
+    translated `_process_packet` on such a packet - under any session key or none - returns bytes or fails with a
+    ProtocolError, nothing else. -/
+theorem v3_receive_contained_code (segs : List Bytes) (key : Option Bytes) :
+    ∃ ps rest, C04.feedAllCode [] segs = .ok (ps, rest) ∧
+      ∀ p ∈ ps, 8 ≤ p.length ∧ ∀ e, Generated.Codec.processPacket key p = .error e → e = .protocol := by
+  refine ⟨(parseLoop segs.flatten).1, (parseLoop segs.flatten).2, C04.segmentation_independent_code segs, ?_⟩
+  intro p hp
+  have hl := parseLoop_packet_len _ p hp
+  refine ⟨hl, fun e he => ?_⟩
+  rw [CodecEq.processPacket_eq] at he
+  exact processPacket_err (by omega) he
+
+/-- **C09 about the translated `_Packet.decode`**: on ANY byte string it returns a frame or fails with a ProtocolError. -/
+theorem v2_decode_contained_code (d : Bytes) (e : Err) (h : Generated.Codec.packetDecode d = .error e) : e = .protocol := by
+  rw [CodecEq.packetDecode_eq] at h; exact packetDecode_err h
+
+/-- **C09 about the translated `_get_local_key`**: with a 32-byte key, on ANY reply payload it returns a key or fails with an
+    AuthenticationError. -/
+theorem handshake_reply_contained_code (key data : Bytes) (hk : key.length = 32) (e : Err)
+    (h : Generated.Codec.getLocalKey key data = .error e) : e = .auth := by
+  rw [CodecEq.getLocalKey_eq] at h; exact getLocalKey_err hk h
+
+end Code
 
 end Msmart.Props.C09
